@@ -16,28 +16,43 @@ HARNESS_TIMEOUT = 2400
 COQ_EVAL_TIMEOUT = 1500
 DESIGN_REF = "§5 C37"
 TECHNIQUE = ("Coq proof (tag generation = first draw of a seeded sequence outside the existing tag set, for every tag set, every random source and "
-             "every DDL sequence; serialized-field model of SerializeSchema/DeserializeSchema with a round-trip theorem) + in-Coq correspondence "
-             "through SQL DDL on two branches and two independent repositories, with the real serializer run on every stored schema")
+             "every DDL sequence; run-level invariant for pairwise distinct tags on a decidable class of runs; serialized-field models of "
+             "SerializeSchema/DeserializeSchema and of the foreign key collection with round-trip theorems; the oracle proved on the model's own "
+             "observation) + in-Coq correspondence through SQL DDL on two branches and three repositories, with the real serializers run on every "
+             "stored schema / foreign key collection and their determinism observed")
 LEVEL_TEXT = ("Proof (F/M), partial for one clause: for every random source, existing tag set and seed the generated tag is fresh (tag_fresh) and below "
-              "the reserved range (tag_below_reserved); the tags assigned by any DDL sequence (CREATE / ADD / DROP / RENAME / MODIFY COLUMN, DROP TABLE, "
-              "commit) depend on the rest of the root only through its SET of tags (same_ddl_same_tags: two roots that agree on the touched tables get "
-              "identical tables and tags, whatever the order, grouping or multiplicity of the other tags) and on names only through simpleString "
-              "(tag_simple_names); deserialize(serialize s) = s for every well-formed schema over the modelled fields (schema_roundtrip: columns with name, "
-              "tag, type, nullability, pk flag, auto-increment, default / generated / on-update expressions, virtual, comment, hidden; pk ordinals; "
-              "indexes by column position; checks; collation; comment; row size; keyless marker columns). Pairwise distinctness of tags within a root is "
-              "proved per statement for CREATE TABLE of a table HEAD does not have and for ADD COLUMN (tags_distinct_partial, addcol_tag_fresh) and REFUTED "
-              "in general (tags_distinct_refuted: ADD COLUMN ignores HEAD's tags, CREATE TABLE re-uses them; the witness replays on the real code). Tied to the code by generated DDL scripts run on two "
-              "branches and two repositories, the stored schemas read back through the doltdb API and pushed through the real SerializeSchema / "
-              "DeserializeSchema, compared field by field inside Coq.")
+              "the bound for the root size, hence below the reserved range for < 8192 tags (tag_below_reserved); the tags assigned by any DDL sequence "
+              "(CREATE / ADD / DROP / RENAME / MODIFY COLUMN, DROP TABLE, commit) depend on the rest of the root only through its SET of tags "
+              "(same_ddl_same_tags) and on names only through simpleString (tag_simple_names). Tags stay pairwise distinct in every state of every run "
+              "of the decidable class safe_run — every re-creation of a table HEAD still has finds none of the re-used tags in the working root — "
+              "(tags_distinct_run_partial), in particular of every run that never re-creates such a table, a condition on the statement list and table "
+              "names alone (no_recreate_safe, tags_distinct_run_no_recreate); outside that class the statement is REFUTED (tags_distinct_refuted, witness "
+              "replayed on the real code). deserialize(serialize s) = s for every well-formed schema over the modelled fields (schema_roundtrip: columns "
+              "with name, tag, type, nullability, pk flag, auto-increment, default / generated / on-update expressions, virtual, comment, hidden, "
+              "system-hidden; pk ordinals; indexes by column position with comment, prefix lengths, unique / user-defined / spatial / fulltext / vector "
+              "flags, predicate, fulltext table names and key info, vector distance type; checks incl. not-valid flag; collation; comment; row size; "
+              "keyless marker columns) and for the foreign key collection (fk_roundtrip). The executable oracle is proved true on the model's own "
+              "observation: clauses (a) round trip and (b) same tags everywhere outright for well-formed inputs (oracle_a_on_model, oracle_b_on_model), "
+              "clause (c) distinct tags on the class input_safe (oracle_on_model_partial). Tied to the code by generated DDL scripts run on two branches "
+              "and in independent repositories, the stored schemas read back through the doltdb API and pushed through the real serializers, compared "
+              "field by field inside Coq.")
 LEVEL_NOTE = ("Trusted: Coq kernel, Go harness (script runner, seed-key derivation with the real doltdb.GetExistingColumns, candidate enumeration by "
               "calling the real schema.AutoGenerateTag with growing exclusion sets), Python glue. Section variables (visible in the theorems): rand_seq "
               "= the math/rand stream seeded from sha512 of the seed key (fed from the implementation in the correspondence), type_string / parse_type "
               "= sqlTypeString / typeinfoFromSqlType+WithEncoding with the hypothesis that a type string parses back (checked per column on the real "
-              "code: TypeInfo.Equals). Modelled, not verified: flatbuffers byte layout (the model is the list of fields written and read), the SQL "
-              "engine's translation of DDL text to column lists and kinds (reported by the harness), Unicode case folding of names (ASCII names "
-              "generated), fulltext / vector index properties, foreign keys (stored outside the schema message).")
+              "code: TypeInfo.Equals), encode_name / decode_name = the table-name encoding of the foreign key collection with the hypothesis that a name "
+              "decodes back (checked on the real code field by field). Correspondence-only clause (bytes are not modelled): SerializeSchema and "
+              "SerializeForeignKeys are deterministic on the real code — serializing twice, serializing the deserialized value again, and serializing "
+              "the schema read in repository A and in repository B give identical bytes, and table.GetSchemaHash agrees on b1, b2 and in repository B; "
+              "the oracle requires all of these. Modelled, not verified: flatbuffers byte layout (the model is the list of fields written and read; "
+              "fields written but never read back — display order, key/value column vectors, adaptive-encoding markers — are left out), the SQL engine's "
+              "translation of DDL text to column lists and kinds (reported by the harness), Unicode case folding of names (ASCII names generated), "
+              "tag assignment for the pseudo-index tables of FULLTEXT indexes (fulltext / vector / spatial indexes and foreign keys are exercised in a "
+              "third repository where only the serialization round trips are observed).")
 THEOREMS = ["tag_fresh", "tag_below_reserved", "auto_tag_same_set", "tag_simple_names", "same_ddl_same_tags", "tags_distinct_partial",
-            "addcol_tag_fresh", "tags_distinct_refuted", "schema_roundtrip", "sschema_eqb_eq", "reserved_tag_min_pinned"]
+            "addcol_tag_fresh", "tags_distinct_run_partial", "no_recreate_safe", "tags_distinct_run_no_recreate", "tags_distinct_refuted",
+            "schema_roundtrip", "fk_roundtrip", "sschema_eqb_eq", "oracle_a_on_model", "oracle_b_on_model", "oracle_c_on_model_partial",
+            "oracle_on_model_partial", "reserved_tag_min_pinned"]
 EXPLANATION = ("Open findings replayed on every run (known_findings.json, witnesses in known_witness_cases with a passing control each): spurious schema "
                "conflicts / merge errors between branches that ran the same DDL (CHECK on a column with upper-case letters; two indexes over the same "
                "columns; keyless table with ON UPDATE and no DEFAULT), a generated expression stored with an unquoted table qualifier after CREATE INDEX, "
@@ -47,14 +62,17 @@ RULE = ("DDL scripts: 1-3 CREATE TABLE (2-7 columns over every reachable typeinf
         "AUTO_INCREMENT / generated columns / column collations, multi-column primary keys in non-declaration order or keyless, secondary / unique / "
         "prefix indexes, named and unnamed checks, table collation and comment; table-name twins such as t1 / T_1 that share a tag seed so that "
         "collisions are the norm), then ALTERs (ADD COLUMN FIRST/AFTER, DROP, RENAME, MODIFY across kinds, CREATE INDEX, ADD CHECK), commits, DROP TABLE + "
-        "re-CREATE with shared columns; 0-4 more statements run on both branches and in the second repository; non-trivial = at least one table "
+        "re-CREATE with shared columns; 0-4 more statements run on both branches and in the second repository; in 45% of the cases an extra script in a "
+        "third repository (foreign keys with actions, composite, self-referencing and unresolved; FULLTEXT, VECTOR and SPATIAL indexes; index comments) "
+        "whose schemas and foreign key collection go through the real serializers; non-trivial = at least one table "
         "stored and one tag drawn; distinct by script text")
 ASSUMPTIONS = ["names are ASCII (strings.EqualFold / simpleString modelled on bytes)",
                "fewer than 8192 columns per root (maxTagVal stays 16384 in generated cases; the model covers the growth loop)"]
 REQUIRED_TAGS = ["tag-collision", "head-reuse", "addcol", "addcol-positioned", "dropcol", "rename", "modify-kind", "keyless", "multi-pk-reordered",
                  "index", "unique-index", "prefix-index", "check", "default", "generated", "on-update", "comment", "table-collation", "col-collation",
                  "merge-clean", "branch-ddl", "ty-decimal", "ty-enum", "ty-set", "ty-json", "ty-geometry", "ty-bit", "ty-year", "ty-datetime-fsp",
-                 "ty-blob", "ty-text", "ty-unsigned", "ty-float", "autoinc"]
+                 "ty-blob", "ty-text", "ty-unsigned", "ty-float", "autoinc", "fulltext-index", "vector-index", "spatial-index", "index-comment",
+                 "system-index", "foreign-key", "fk-unresolved", "fk-actions", "fk-composite"]
 
 # (sql type, class, tag)
 TYPES = [
@@ -256,7 +274,42 @@ def gen_alter(rng, sim, only=None):
     return None
 
 
+FK_ACTIONS = ["", " on delete cascade", " on delete set null", " on update cascade", " on delete restrict on update set null", " on delete no action"]
+
+
+def gen_extra(rng):
+    """script for the third repository: what the tag model does not cover (indexes with fulltext / vector / spatial properties and comments,
+    foreign keys incl. composite, self-referencing and unresolved ones); only the serialization round trips are observed there"""
+    q = []
+    x = rng.random()
+    q.append("create table p (id int primary key, v varchar(20), w int not null, u int, unique key uw (w), key kv (v) comment 'idx %s', key kwu (w, u))" % rng.choice(["c", "comment", "x y"]))
+    q.append("create table c (id int primary key, pid int, pw int, pu int, constraint fk1 foreign key (pid) references p(id)%s, "
+             "constraint fk2 foreign key (pw) references p(w)%s)" % (rng.choice(FK_ACTIONS), rng.choice(FK_ACTIONS)))
+    if rng.random() < 0.6:
+        q.append("alter table c add constraint fk3 foreign key (pw, pu) references p(w, u)%s" % rng.choice(FK_ACTIONS))
+    if rng.random() < 0.5:
+        q.append("create table tree (id int primary key, parent int, constraint fkself foreign key (parent) references tree(id)%s)" % rng.choice(FK_ACTIONS))
+    if rng.random() < 0.6:
+        cols = rng.choice(["doc", "doc, title", "title"])
+        q.append("create table `%s` (id int primary key, doc text, title varchar(100), fulltext key ftx (%s))" % (rng.choice(["ft", "F_T", "docs"]), cols))
+    if rng.random() < 0.5:
+        q.append("create table vt (id int primary key, emb %s not null, vector index vix (emb))" % rng.choice(["json", "vector(3)"]))
+    if rng.random() < 0.5:
+        q.append("create table sp (id int primary key, g %s not null srid %d, spatial key sg (g))" % (rng.choice(["point", "geometry", "polygon"]), rng.choice([0, 4326])))
+    if rng.random() < 0.5:
+        q.append("set foreign_key_checks=0")
+        q.append("create table c2 (id int primary key, x int, y int, constraint fku foreign key (x%s) references nope(a%s))" % ((", y", ", b") if rng.random() < 0.4 else ("", "")))
+    return q
+
+
 def gen_one(rng):
+    c = gen_one_tags(rng)
+    if rng.random() < 0.45:
+        c["extra"] = gen_extra(rng)
+    return c
+
+
+def gen_one_tags(rng):
     sim = Sim()
     main, branch = [], []
     twins = rng.choice(TABLE_TWINS)
@@ -342,7 +395,18 @@ def fixed_cases():
                       {"name": "y", "ty": "year", "cls": "year"}, {"name": "s", "ty": "set('x','y')", "cls": "set"},
                       {"name": "ts", "ty": "timestamp(6)", "cls": "dt", "default": True, "onupd": True}], "pk": [], "idx": ["prefix"], "checks": 0, "tcoll": None, "autoinc": False}}],
         "branch": []}
-    return [c1, c2] + known_witness_cases()
+    c3 = {"main": [c1["main"][1]], "branch": [], "extra": [
+        "create table p (id int primary key, v varchar(20), w int not null, u int, unique key uw (w), key kv (v) comment 'idx c', key kwu (w, u))",
+        "create table c (id int primary key, pid int, pw int, pu int, constraint fk1 foreign key (pid) references p(id) on delete cascade on update set null, "
+        "constraint fk2 foreign key (pw) references p(w), constraint fk3 foreign key (pw, pu) references p(w, u))",
+        "create table tree (id int primary key, parent int, constraint fkself foreign key (parent) references tree(id) on delete set null)",
+        "create table ft (id int primary key, doc text, title varchar(100), fulltext key ftx (doc, title))",
+        "create table vt (id int primary key, emb json not null, vector index vix (emb))",
+        "create table vt2 (id int primary key, emb vector(3) not null, vector index vix (emb))",
+        "create table sp (id int primary key, g point not null srid 0, spatial key sg (g))",
+        "set foreign_key_checks=0",
+        "create table c2 (id int primary key, x int, constraint fku foreign key (x) references nope(y))"]}
+    return [c1, c2, c3] + known_witness_cases()
 
 
 def known_witness_cases():
@@ -441,21 +505,40 @@ def cq_ddl(st, so):
     return "(Commit, false)"
 
 
+def cq_ft(t):
+    if not any([t["config"], t["pos"], t["doccount"], t["global"], t["rowcount"], t["keytype"], t["keyname"], t["keypos"]]):
+        return "ft_zero"
+    return ("{| ft_config := %s; ft_pos := %s; ft_doccount := %s; ft_global := %s; ft_rowcount := %s; ft_keytype := %d; ft_keyname := %s; ft_keypos := %s |}" % (
+        B(t["config"]), B(t["pos"]), B(t["doccount"]), B(t["global"]), B(t["rowcount"]), t["keytype"], B(t["keyname"]), cq_list(str(p) for p in t["keypos"])))
+
+
+def cq_fks(l):
+    return cq_list("{| fk_name := %s; fk_table := %s; fk_index := %s; fk_cols := %s; fk_reftable := %s; fk_refindex := %s; fk_refcols := %s; "
+                   "fk_onupdate := %d; fk_ondelete := %d; fk_unres := %s; fk_unresref := %s; fk_notvalid := %s; fk_match := %d |}" % (
+                       B(k["name"]), B(k["table"]), B(k["index"]), cq_list(str(t) for t in k["cols"]), B(k["reftable"]), B(k["refindex"]),
+                       cq_list(str(t) for t in k["refcols"]), k["onupdate"], k["ondelete"], cq_list(B(x) for x in k["unrescols"]),
+                       cq_list(B(x) for x in k["unresref"]), cq_bool(k["notvalid"]), k["match"]) for k in l)
+
+
 def cq_schema(f):
     cols = cq_list(
         "{| sc_name := %s; sc_tag := %d; sc_ty := %s; sc_nullable := %s; sc_pk := %s; sc_autoinc := %s; sc_default := %s; sc_generated := %s; "
-        "sc_onupdate := %s; sc_virtual := %s; sc_comment := %s; sc_hidden := %s |}" % (
+        "sc_onupdate := %s; sc_virtual := %s; sc_comment := %s; sc_hidden := %s; sc_syshidden := %s |}" % (
             B(c["name"]), c["tag"], B(c["ty"]), cq_bool(c["nullable"]), cq_bool(c["pk"]), cq_bool(c["autoinc"]), B(c["default"]), B(c["gen"]),
-            B(c["onupd"]), cq_bool(c["virtual"]), B(c["comment"]), cq_bool(c["hidden"])) for c in f["cols"])
-    idx = cq_list("{| ix_name := %s; ix_tags := %s; ix_unique := %s; ix_comment := %s; ix_prefix := %s; ix_flags := %d |}" % (
-        B(x["name"]), cq_list(str(t) for t in x["tags"]), cq_bool(x["unique"]), B(x["comment"]), cq_list(str(p) for p in x["prefix"]), x["flags"]) for x in f["idx"])
-    chk = cq_list("{| ck_name := %s; ck_expr := %s; ck_enforced := %s |}" % (B(k["name"]), B(k["expr"]), cq_bool(k["enforced"])) for k in f["chk"])
+            B(c["onupd"]), cq_bool(c["virtual"]), B(c["comment"]), cq_bool(c["hidden"]), cq_bool(c["syshidden"])) for c in f["cols"])
+    idx = cq_list("{| ix_name := %s; ix_tags := %s; ix_unique := %s; ix_comment := %s; ix_prefix := %s; ix_userdef := %s; ix_spatial := %s; "
+                  "ix_fulltext := %s; ix_vector := %s; ix_predicate := %s; ix_ft := %s; ix_vecdist := %d |}" % (
+        B(x["name"]), cq_list(str(t) for t in x["tags"]), cq_bool(x["unique"]), B(x["comment"]), cq_list(str(p) for p in x["prefix"]),
+        cq_bool(x["userdef"]), cq_bool(x["spatial"]), cq_bool(x["fulltext"]), cq_bool(x["vector"]), B(x["predicate"]), cq_ft(x["ft"]), x["vecdist"])
+        for x in f["idx"])
+    chk = cq_list("{| ck_name := %s; ck_expr := %s; ck_enforced := %s; ck_notvalid := %s |}" % (
+        B(k["name"]), B(k["expr"]), cq_bool(k["enforced"]), cq_bool(k["notvalid"])) for k in f["chk"])
     return "{| s_cols := %s; s_pk_ord := %s; s_indexes := %s; s_checks := %s; s_collation := %d; s_comment := %s; s_rowsize := %d |}" % (
         cols, cq_list("%d%%nat" % p for p in f["pkord"]), idx, chk, f["coll"], B(f["comment"]), f["rowsize"])
 
 
-BAD = ("({| i_main := []; i_branch := []; i_cands := []; i_schemas := [] |}, {| o_states := []; o_b2 := []; o_envb := []; o_merged := []; "
-       "o_merge := 9; o_back := []; o_flags := [false] |})")
+BAD = ("({| i_main := []; i_branch := []; i_cands := []; i_schemas := []; i_fks := [] |}, {| o_states := []; o_b2 := []; o_envb := []; o_merged := []; "
+       "o_merge := 9; o_back := []; o_flags := [false]; o_fks_back := []; o_fkflags := [] |})")
 
 
 def merge_class(o):
@@ -471,9 +554,22 @@ def merge_class(o):
     return 0 if conf == "i:0" and nsc == 0 else 1
 
 
+def rt_basic(o, r):
+    """SchemasAreEqual, TypeInfo.Equals per column, SerializeSchema deterministic (twice, after the round trip; for repository A also:
+    same bytes and same stored schema hash in repository B and on branch b2)"""
+    ok = bool(r["err"] == "" and r["equal"] and all(c["tyeq"] for c in r["back"]["cols"]) and len(r["back"]["cols"]) == len(r["stored"]["cols"])
+              and r["twice"] and r["reser"])
+    if r.get("env") == "A":
+        t = r["table"]
+        ok = ok and r["bytes"] == o["bytesb"].get(t) and r["hash"] != "" and r["hash"] == o["hashb"].get(t) == o["hashb2"].get(t)
+    return ok
+
+
 def rt_flag(o, r):
-    return bool(r["err"] == "" and r["equal"] and all(c["tyeq"] for c in r["back"]["cols"]) and len(r["back"]["cols"]) == len(r["stored"]["cols"])
-                and o["createb"].get(r["table"]) == r["create"] and not r["create"].startswith("ERR"))
+    ok = rt_basic(o, r) and not r["create"].startswith("ERR")
+    if r.get("env") == "A":
+        ok = ok and o["createb"].get(r["table"]) == r["create"]
+    return bool(ok)
 
 
 def coq_case(case, out):
@@ -490,16 +586,19 @@ def coq_case(case, out):
     keep = [i for i, d in enumerate(ddls) if d != "(Commit, false)" or i == nm - 1 or i == len(ddls) - 1]
     cands = cq_list("((%s, %s, %s, %d), %s)" % (B(c["table"]), B(c["col"]), cq_list(str(k) for k in c["kinds"]), c["kind"], cq_list(str(x) for x in c["seq"]))
                     for c in o["cands"])
-    inp = "{| i_main := %s; i_branch := %s; i_cands := %s; i_schemas := %s |}" % (
-        cq_list(ddls[i] for i in keep if i < nm), cq_list(ddls[i] for i in keep if i >= nm), cands, cq_list(cq_schema(r["stored"]) for r in o["rt"]))
+    inp = "{| i_main := %s; i_branch := %s; i_cands := %s; i_schemas := %s; i_fks := %s |}" % (
+        cq_list(ddls[i] for i in keep if i < nm), cq_list(ddls[i] for i in keep if i >= nm), cands, cq_list(cq_schema(r["stored"]) for r in o["rt"]),
+        cq_list(cq_fks(f["stored"]) for f in o["fks"]))
     # a statement the implementation accepts on b1 must be accepted on b2 and in repository B as well (and vice versa)
     errs_a = [so["err"] != "" for so in o["steps"]]
     same_acc = ([e != "" for e in o["b2errs"]] == errs_a[nm:]) and ([e != "" for e in o["envberrs"]] == errs_a)
-    obs = "{| o_states := %s; o_b2 := %s; o_envb := %s; o_merged := %s; o_merge := %d; o_back := %s; o_flags := %s |}" % (
+    obs = "{| o_states := %s; o_b2 := %s; o_envb := %s; o_merged := %s; o_merge := %d; o_back := %s; o_flags := %s; o_fks_back := %s; o_fkflags := %s |}" % (
         cq_list(cq_root(o["steps"][i]["after"]) for i in keep), cq_root(o["b2"]), cq_root(o["envb"]), cq_root(o["merged"]),
         merge_class(o) if same_acc else 3,
         cq_list(("None" if r["err"] else "(Some %s)" % cq_schema(r["back"])) for r in o["rt"]),
-        cq_list(cq_bool(rt_flag(o, r)) for r in o["rt"]))
+        cq_list(cq_bool(rt_flag(o, r)) for r in o["rt"]),
+        cq_list(("None" if f["err"] else "(Some %s)" % cq_fks(f["back"])) for f in o["fks"]),
+        cq_list(cq_bool(f["twice"] and not f["err"]) for f in o["fks"]))
     return "(%s, %s)" % (inp, obs)
 
 
@@ -573,6 +672,29 @@ def classify(case, out):
             now = {c["tag"] for tb in so["after"] if tb["name"] == st["table"] for c in tb["cols"]}
             if seen_before & now:
                 t.add("head-reuse")
+    for r in o["rt"]:
+        for x in r["stored"]["idx"]:
+            if x["fulltext"]:
+                t.add("fulltext-index")
+            if x["vector"]:
+                t.add("vector-index")
+            if x["spatial"]:
+                t.add("spatial-index")
+            if x["comment"]:
+                t.add("index-comment")
+            if not x["userdef"]:
+                t.add("system-index")
+    for f in o["fks"]:
+        for k in f["stored"]:
+            t.add("foreign-key")
+            if not k["cols"]:
+                t.add("fk-unresolved")
+            if k["ondelete"] or k["onupdate"]:
+                t.add("fk-actions")
+            if len(k["cols"]) >= 2:
+                t.add("fk-composite")
+    if any(e for e in o.get("extraerr", [])):
+        t.add("extra-rejected")
     mc = merge_class(o)
     t.add(["merge-clean", "merge-conflict", "merge-error"][mc])
     if not all(rt_flag(o, r) for r in o["rt"]):
@@ -586,6 +708,14 @@ def nontrivial(case, out):
 
 
 def shrink_candidates(case):
+    if case.get("extra"):
+        c = copy.deepcopy(case)
+        del c["extra"]
+        yield c
+        for i in range(len(case["extra"]) - 1, -1, -1):
+            c = copy.deepcopy(case)
+            del c["extra"][i]
+            yield c
     for part in ("branch", "main"):
         for i in range(len(case[part]) - 1, -1, -1):
             c = copy.deepcopy(case)
